@@ -260,18 +260,21 @@ func (_this *RulesEventReceiver) OnMedia(mediaType string, value []byte) {
 		panic(fmt.Errorf("media type is too long (%v bytes)", len(mediaType)))
 	}
 	_this.context.ValidateContentsStringlike(mediaType)
+	_this.context.ValidateMediaType(mediaType)
 	_this.context.NotifyNewObject(true)
 	_this.context.CurrentEntry.Rule.OnArray(&_this.context, events.ArrayTypeMedia, uint64(len(value)), value)
 	_this.receiver.OnMedia(mediaType, value)
 }
 
 func (_this *RulesEventReceiver) OnCustomBinary(customType uint64, value []byte) {
+	_this.context.ValidateCustomType(customType)
 	_this.context.NotifyNewObject(true)
 	_this.context.CurrentEntry.Rule.OnArray(&_this.context, events.ArrayTypeCustomBinary, uint64(len(value)), value)
 	_this.receiver.OnCustomBinary(customType, value)
 }
 
 func (_this *RulesEventReceiver) OnCustomText(customType uint64, value string) {
+	_this.context.ValidateCustomType(customType)
 	_this.context.NotifyNewObject(true)
 	_this.context.CurrentEntry.Rule.OnStringlikeArray(&_this.context, events.ArrayTypeCustomText, value)
 	_this.receiver.OnCustomText(customType, value)
@@ -286,6 +289,7 @@ func (_this *RulesEventReceiver) OnArrayBegin(arrayType events.ArrayType) {
 
 func (_this *RulesEventReceiver) OnMediaBegin(mediaType string) {
 	_this.context.ValidateContentsStringlike(mediaType)
+	_this.context.ValidateMediaType(mediaType)
 	_this.context.NotifyNewObject(true)
 	_this.context.CurrentEntry.Rule.OnArrayBegin(&_this.context, events.ArrayTypeMedia)
 	_this.receiver.OnMediaBegin(mediaType)
@@ -293,6 +297,7 @@ func (_this *RulesEventReceiver) OnMediaBegin(mediaType string) {
 
 func (_this *RulesEventReceiver) OnCustomBegin(arrayType events.ArrayType, customType uint64) {
 	_this.validateCustomTypeAPICall(arrayType)
+	_this.context.ValidateCustomType(customType)
 	_this.context.NotifyNewObject(true)
 	_this.context.CurrentEntry.Rule.OnArrayBegin(&_this.context, arrayType)
 	_this.receiver.OnCustomBegin(arrayType, customType)
